@@ -33,6 +33,9 @@ pub enum HOp {
     Reset,
     Shape(usize),
     CloneState,
+    /// `existing.clone_from(&state)` where `existing` is a state of another group (index into
+    /// the seven names) built for the same shape: the result must be what `state.clone()` is
+    CloneFrom(usize),
     Json,
     /// replace the cell by one with wide bounds holding the same values
     BigCell,
@@ -40,7 +43,7 @@ pub enum HOp {
 
 impl HOp {
     fn needs_mut(&self) -> bool {
-        matches!(self, HOp::Shape(_) | HOp::CloneState | HOp::Json | HOp::BigCell)
+        matches!(self, HOp::Shape(_) | HOp::CloneState | HOp::CloneFrom(_) | HOp::Json | HOp::BigCell)
     }
 }
 
@@ -59,6 +62,8 @@ pub trait Editable: State + Sized {
     fn replace_shape(&mut self, s: Self::Sh);
     fn big_cell(&mut self);
     fn roundtrip(&self) -> Option<Self>;
+    /// a fresh state of another group holding the same shape
+    fn fresh_of_group(&self, group: &str) -> Option<Self>;
 }
 
 impl<S: HardGeom> Editable for PackedState<S> {
@@ -72,6 +77,9 @@ impl<S: HardGeom> Editable for PackedState<S> {
     fn roundtrip(&self) -> Option<Self> {
         serde_json::to_string(self).ok().and_then(|t| serde_json::from_str(&t).ok())
     }
+    fn fresh_of_group(&self, group: &str) -> Option<Self> {
+        PackedState::from_group(self.shape.clone(), &libx::lib_group(group).ok()?).ok()
+    }
 }
 
 impl Editable for PotentialState<LJShape2> {
@@ -84,6 +92,9 @@ impl Editable for PotentialState<LJShape2> {
     }
     fn roundtrip(&self) -> Option<Self> {
         serde_json::to_string(self).ok().and_then(|t| serde_json::from_str(&t).ok())
+    }
+    fn fresh_of_group(&self, group: &str) -> Option<Self> {
+        PotentialState::from_group(self.shape.clone(), &libx::lib_group(group).ok()?).ok()
     }
 }
 
@@ -218,6 +229,23 @@ pub fn drive<T: Editable, J: FnMut(&T, usize, usize, &Params, &mut Stats)>(h: &H
                     shape_ix = *k;
                 }
                 HOp::CloneState => state = state.clone(),
+                HOp::CloneFrom(g) => {
+                    if let Some(mut existing) = state.fresh_of_group(groups::NAMES[*g % 7]) {
+                        let want = serde_json::to_value(&state.clone()).ok();
+                        existing.clone_from(&state);
+                        let got = serde_json::to_value(&existing).ok();
+                        st.count("clone_from_onto_a_state_of_another_group");
+                        if want != got {
+                            st.violation(Violation {
+                                kind: "history".into(),
+                                signature: "State::clone_from:not-what-clone-gives".into(),
+                                case: json!({}),
+                                detail: json!({"overwritten_state_was_of_group": groups::NAMES[*g % 7], "clone()": want, "clone_from()": got}),
+                            });
+                        }
+                        state = existing;
+                    }
+                }
                 HOp::Json => {
                     if let Some(s) = state.roundtrip() {
                         state = s;
@@ -322,7 +350,13 @@ pub fn gen_history<R: Rng>(rng: &mut R, group: &str, shapes: Vec<ShapeSpec>, lj:
             }
             11 => HOp::Reset,
             12 => HOp::Shape(rng.gen_range(0, shapes.len())),
-            13 => HOp::CloneState,
+            13 => {
+                if rng.gen_bool(0.5) {
+                    HOp::CloneState
+                } else {
+                    HOp::CloneFrom(rng.gen_range(0, 7))
+                }
+            }
             14 => HOp::Json,
             _ => HOp::BigCell,
         });
